@@ -291,11 +291,13 @@ Proof.
     cbn [step_ok next_await w_st w_await comm pend view] in *.
     destruct pd as [p|]; cbn in OK; try discriminate.
     destruct aw; cbn in OK; try discriminate.
-    rewrite !andb_true_iff in OK. destruct OK as [[_ Oc] Ht].
+    rewrite !andb_true_iff in OK. destruct OK as [Oc Ht].
     rewrite exec_write by reflexivity. cbn [w_st w_await comm pend view] in *.
-    constructor; cbn [w_st w_await comm pend view]; auto.
+    constructor; cbn [w_st w_await comm pend view].
     + eapply ext_trans; eauto. apply apply_ext.
+    + exact Iidc.
     + apply ids_ok_apply; auto.
+    + exact Irc.
     + apply all_readable_apply; auto. intros; discriminate.
     + intros t' r E. inversion E; subst t' r. repeat split; auto; try discriminate.
       exists payload. apply read_new_case; auto.
@@ -310,16 +312,17 @@ Proof.
     apply ctable_eqb_eq in Et. apply Z.eqb_eq in Er. subst t' r'.
     rewrite exec_write by reflexivity. cbn [w_st w_await comm pend view] in *.
     destruct (Iaw t r eq_refl) as (_ & Oc & [q Hq]).
-    constructor; cbn [w_st w_await comm pend view]; auto.
+    constructor; cbn [w_st w_await comm pend view].
     + eapply ext_trans; eauto. apply apply_ext.
+    + exact Iidc.
     + apply ids_ok_apply; auto.
+    + exact Irc.
     + intros g Hg. rewrite globals_apply_global in Hg. apply in_app_or in Hg as [Hg | [<- | []]].
       * destruct (Irv g Hg) as [p' Hp']. exists p'. now apply read_case_apply.
       * exists q. now apply read_case_apply.
     + intros ? ? E; discriminate.
     + intros E; discriminate.
     + intros O. rewrite Oc in O. discriminate.
-  - discriminate.
 Qed.
 
 Lemma wf_run_inv t : forall w w',
@@ -327,11 +330,11 @@ Lemma wf_run_inv t : forall w w',
   Inv w' /\ ext (comm (w_st w)) (comm (w_st w')) /\ w_st w' = run t (w_st w).
 Proof.
   induction t as [| x r IH]; cbn; intros w w' H I.
-  - inversion H; subst. repeat split; auto using ext_refl.
+  - inversion H; subst. split; [assumption | split; [apply ext_refl | reflexivity]].
   - destruct (wf_step x w) as [w1|] eqn:S; try discriminate.
     destruct (wf_step_inv _ _ _ S I) as (I1 & E1 & R1).
     destruct (IH _ _ H I1) as (I2 & E2 & R2).
-    repeat split; auto.
+    split; [assumption | split].
     + eapply ext_trans; eauto.
     + rewrite R2, R1. reflexivity.
 Qed.
@@ -351,11 +354,12 @@ Lemma wf_split t k :
     wf_run t w0 = Some wend.
 Proof.
   unfold wf_trace. intros H.
-  destruct (wf_run t w0) as [wend|] eqn:R; try discriminate.
+  assert (exists wend, wf_run t w0 = Some wend) as [wend R0].
+  { destruct (wf_run t w0); [eauto | discriminate]. }
+  clear H. pose proof R0 as R.
   rewrite <- (firstn_skipn k t) in R. rewrite wf_run_app in R.
   destruct (wf_run (firstn k t) w0) as [wk|] eqn:Rk; try discriminate.
-  exists wk, wend. repeat split; auto.
-  rewrite <- (firstn_skipn k t) at 1. rewrite wf_run_app, Rk. exact R.
+  exists wk, wend. split; [reflexivity | split; [exact R | exact R0]].
 Qed.
 
 Lemma crash_facts t k :
@@ -367,10 +371,9 @@ Proof.
   destruct (wf_run_inv _ _ _ Rk inv0) as (Ik & _ & Sk).
   destruct (wf_run_inv _ _ _ Rr Ik) as (_ & Er & _).
   destruct (wf_run_inv _ _ _ Rt inv0) as (_ & _ & St).
-  unfold db_after_crash, db_after. cbn in Sk, St. rewrite <- Sk, <- St.
-  repeat split; try apply Er; try apply Ik.
-  - intros O. apply (i_start _ Ik O).
-  - intros O. apply (i_start _ Ik O).
+  unfold db_after_crash, db_after. cbn [w_st w0] in Sk, St. rewrite <- Sk, <- St.
+  split; [exact Er | split; [apply (i_read_c _ Ik) |]].
+  intros O. apply (i_start _ Ik O).
 Qed.
 
 (* ------------------------------------------------------------------ the theorems *)
@@ -474,37 +477,36 @@ Proof.
   induction t as [| x r IH]; intros s pg Hv Hn.
   - cbn. now rewrite app_nil_r.
   - destruct s as [c pd]. cbn [run].
-    destruct x; cbn [exec committed_globals_from]; destruct pd as [p|]; cbn [pend comm view negb is_none] in *;
-      try (specialize (Hn eq_refl); subst pg).
-    + (* begin, in txn *) apply (IH (mkst c (Some p)) pg); auto. intros E; discriminate.
-    + (* begin *) rewrite (IH (mkst c (Some c)) []); cbn; auto. now rewrite app_nil_r.
-    + (* commit, in txn *)
-      rewrite (IH (mkst p None) []); cbn; auto.
-      * rewrite Hv. now rewrite app_assoc.
-      * now rewrite app_nil_r.
-    + rewrite (IH (mkst c None) []); cbn; auto. now rewrite app_nil_r.
-    + rewrite (IH (mkst c None) []); cbn; auto. now rewrite app_nil_r.
-    + rewrite (IH (mkst c None) []); cbn; auto. now rewrite app_nil_r.
-    + apply (IH (mkst c (Some (apply (SCreate n) p))) pg); cbn; auto. intros E; discriminate.
-    + rewrite (IH (mkst (apply (SCreate n) c) None) []); cbn; auto. now rewrite app_nil_r.
-    + apply (IH (mkst c (Some p)) pg); cbn; auto. intros E; discriminate.
-    + rewrite (IH (mkst c None) []); cbn; auto. now rewrite app_nil_r.
-    + apply (IH (mkst c (Some (apply SInsertMeta p))) pg); cbn; auto. intros E; discriminate.
-    + rewrite (IH (mkst (apply SInsertMeta c) None) []); cbn; auto. now rewrite app_nil_r.
-    + apply (IH (mkst c (Some (apply SUpdateMeta p))) pg); cbn; auto. intros E; discriminate.
-    + rewrite (IH (mkst (apply SUpdateMeta c) None) []); cbn; auto. now rewrite app_nil_r.
-    + apply (IH (mkst c (Some (apply (SInsertCase t payload) p))) pg); cbn; auto. intros E; discriminate.
-    + rewrite (IH (mkst (apply (SInsertCase t payload) c) None) []); cbn; auto. now rewrite app_nil_r.
-    + apply (IH (mkst c (Some (apply (SInsertGlobal t r0) p))) (pg ++ [(t, r0)])); cbn; auto.
-      * rewrite Hv. now rewrite app_assoc.
-      * intros E; discriminate.
-    + rewrite (IH (mkst (apply (SInsertGlobal t r0) c) None) []); cbn; auto.
-      * now rewrite <- app_assoc.
-      * now rewrite app_nil_r.
-    + apply (IH (mkst c (Some p)) pg); cbn; auto. intros E; discriminate.
-    + rewrite (IH (mkst c None) []); cbn; auto. now rewrite app_nil_r.
-    + apply (IH (mkst c (Some p)) pg); cbn; auto. intros E; discriminate.
-    + rewrite (IH (mkst c None) []); cbn; auto. now rewrite app_nil_r.
+    destruct x; cbn [exec committed_globals_from]; destruct pd as [p|];
+      cbn [pend comm view negb is_none] in *;
+      try (specialize (Hn eq_refl); subst pg);
+      try match goal with
+      | |- globals (comm (run r (mkst ?c (Some (apply ?x ?p))))) = _ ++ committed_globals_from r true ?pg' =>
+          apply (IH (mkst c (Some (apply x p))) pg'); cbn [pend comm view];
+          [ first [ rewrite globals_apply_not_global by (intros; discriminate); assumption
+                  | rewrite globals_apply_global, Hv; now rewrite app_assoc ]
+          | intros E; discriminate ]
+      | |- globals (comm (run r (mkst (apply ?x ?c) None))) = _ ++ committed_globals_from r false [] =>
+          rewrite (IH (mkst (apply x c) None) []); cbn [pend comm view negb is_none];
+          [ rewrite globals_apply_not_global by (intros; discriminate); reflexivity
+          | now rewrite app_nil_r | auto ]
+      end.
+    + (* begin inside a transaction: ignored *)
+      apply (IH (mkst c (Some p)) pg); auto; intros E; discriminate.
+    + (* begin *)
+      rewrite (IH (mkst c (Some c)) []); cbn [pend comm view negb is_none]; auto;
+        try (now rewrite app_nil_r); intros E; discriminate.
+    + (* commit *)
+      rewrite (IH (mkst p None) []); cbn [pend comm view negb is_none]; auto;
+        try (now rewrite app_nil_r). rewrite Hv. now rewrite app_assoc.
+    + (* commit outside a transaction: ignored *)
+      rewrite (IH (mkst c None) []); cbn [pend comm view negb is_none]; auto; now rewrite app_nil_r.
+    + (* rollback *)
+      rewrite (IH (mkst c None) []); cbn [pend comm view negb is_none]; auto; now rewrite app_nil_r.
+    + rewrite (IH (mkst c None) []); cbn [pend comm view negb is_none]; auto; now rewrite app_nil_r.
+    + (* autocommitted global INSERT *)
+      rewrite (IH (mkst (apply (SInsertGlobal t r0) c) None) []); cbn [pend comm view negb is_none]; auto;
+        try (now rewrite app_nil_r). rewrite globals_apply_global. now rewrite <- app_assoc.
 Qed.
 
 (* what the crashed file lists is exactly the global_iterations INSERTs whose COMMIT lies in the prefix *)
